@@ -231,16 +231,7 @@ func newRegSpec(r *RNG, format string, credAlg int) *RegSpec {
 		}
 	}
 	if r.P(1, 3) {
-		s.CDExtra = M{}
-		if r.Bool() {
-			s.CDExtra["crossOrigin"] = r.Bool()
-		}
-		if r.Bool() {
-			s.CDExtra["tokenBinding"] = M{"status": "supported"}
-		}
-		if r.Bool() {
-			s.CDExtra["other_keys_can_be_added_here"] = "do not compare clientDataJSON against a template. See https://goo.gl/yabPex"
-		}
+		s.CDExtra = benignCDExtra(r)
 	}
 	return s
 }
@@ -505,6 +496,11 @@ func buildRegistration(r *RNG, s *RegSpec) *RegBuilt {
 		if s.d("u2f.noCerts") {
 			b.Stmt = stmtOf(cborText("sig"), cborBytes(mkSig(signer, signAlg, msg)), cborText("x5c"), cborArray())
 		}
+		if s.d("u2f.emptyX5cEntries") {
+			// x5c has more than one element: the certificate and one or more zero-length byte strings
+			chain = pick(r, [][][]byte{{der, {}}, {{}, der}, {{}, der, {}, {}}, {der, {}, {}}})
+			b.Stmt = stmtOf(cborText("sig"), cborBytes(mkSig(signer, signAlg, msg)), cborText("x5c"), x5cOf(chain...))
+		}
 	case "android-key":
 		certKey := cred
 		if s.d("ak.certKeyOther") {
@@ -656,6 +652,11 @@ func buildRegistration(r *RNG, s *RegSpec) *RegBuilt {
 		}
 		if s.d("tpm.noEKU") {
 			cs.UnknownEKU = pick(r, [][]asn1.ObjectIdentifier{nil, {{2, 23, 133, 8, 1}}})
+		}
+		if s.d("tpm.ekuAnyOnly") {
+			// anyExtendedKeyUsage (alone, or next to other usages) is not tcg-kp-AIKCertificate
+			cs.UnknownEKU = pick(r, [][]asn1.ObjectIdentifier{nil, {{2, 23, 133, 8, 1}}})
+			cs.EKU = pick(r, [][]x509.ExtKeyUsage{{x509.ExtKeyUsageAny}, {x509.ExtKeyUsageAny, x509.ExtKeyUsageServerAuth}, {x509.ExtKeyUsageClientAuth, x509.ExtKeyUsageAny}})
 		}
 		if s.d("tpm.isCA") {
 			cs.IsCA = true
